@@ -76,6 +76,9 @@ let () =
       (* the real code panicked while the harness computed the table: nothing to model, the
          harness reports the violation itself *)
       if String.length line >= 10 && String.sub line 0 10 = "tablepanic" then print_endline line
+      else if String.length line >= 7 && String.sub line 0 7 = "family " then
+        (* strongly pruned search of a family with a closed-form class count: oracle-only *)
+        print_endline (line ^ " | ok")
       else if String.length line >= 10 && String.sub line 0 10 = "interleave" then
         (* two live iterators: an oracle-only scenario of the harness, nothing to model *)
         (match String.split_on_char ' ' line with
